@@ -4,8 +4,8 @@
    Keys are hex keys closed by the terminator (vkey) — what keybytesToHex produces for every byte key. *)
 From Coq Require Import List Arith Bool Lia.
 From Coq Require Import NArith.
-From Verif Require Import Trie.Model Trie.Keys Trie.ProofsWf Trie.ProofsMap Trie.ProofsCanon Trie.Theorems.
-From Verif Require Import State.StackedMap State.ProofsSM State.Model State.ProofsStage State.ProofsState State.ProofsJournal State.ProofsReplay State.ProofsCommit.
+From Verif Require Import Trie.Model Trie.Keys Trie.ProofsWf Trie.ProofsMap Trie.ProofsCanon Trie.Theorems Trie.ProofsProj.
+From Verif Require Import State.StackedMap State.ProofsSM State.Model State.ProofsStage State.ProofsState State.ProofsJournal State.ProofsReplay State.ProofsCommit State.ExamplesContent.
 Import ListNotations.
 
 Section C06_trie.
@@ -51,9 +51,28 @@ Section C06_trie.
     intros Hv Hk. rewrite (run_refines_map V veqb veqb_sound ops Nil k'); auto. left; reflexivity.
   Qed.
 
-  (* metadata does not reach the tree shape: forgetting it commutes with reading (the consensus encoding of a
-     value node is its value alone, node.go valueNode.encodeConsensus) *)
 End C06_trie.
+
+(* metadata does not reach the root: the consensus encoding of a value node is its value alone (node.go
+   valueNode.encodeConsensus), so the root is a function of the tree with the leaves projected (map_node f; f = fst drops
+   the metadata).  The projection keeps the shape invariant and commutes with Get; hence two well-formed tries whose
+   contents agree after the projection have the same projected tree, whatever their metadata. *)
+Section C06_projection.
+  Variables A B : Type.
+  Variable f : A -> B.
+
+  Theorem projection_keeps_wf t : wfc A t -> wfc B (map_node f t).
+  Proof. exact (map_node_wfc A B f t). Qed.
+
+  Theorem projection_commutes_with_get t k : trie_get B (map_node f t) k = option_map f (trie_get A t k).
+  Proof. exact (trie_get_map_node A B f t k). Qed.
+
+  Theorem root_ignores_metadata (R : Type) (root : node B -> R) t1 t2 :
+    wfc A t1 -> wfc A t2 ->
+    (forall k, vkey k -> option_map f (trie_get A t1 k) = option_map f (trie_get A t2 k)) ->
+    root (map_node f t1) = root (map_node f t2).
+  Proof. intros H1 H2 H. f_equal. exact (canonical_projection A B f t1 t2 H1 H2 H). Qed.
+End C06_projection.
 
 (* Part 2 (journal / revisions): the stacked map with its per-key revision stacks (stackedmap.go) behaves as a
    plain stack of maps, and PopTo restores precisely the earlier contents.  K, Vv are the key/value types
@@ -148,6 +167,73 @@ Section C06_state.
     rewrite D. exact Hb.
   Qed.
 
+  (* the state root is computed from the consensus view (State/Model.v cview: account fields and the consensus view of
+     the storage trie; StorageID / versions / key preimages are metadata): two well-formed accounts tries — e.g. two
+     staged tries — whose leaves agree in the consensus view have the same consensus view, hence the same root for any
+     root function, even when their metadata differ (Example stage_order_changes_metadata_only: the order of the first
+     storage writes of two accounts changes the StorageIDs and leaves the consensus view alone) *)
+  Theorem stage_root_ignores_metadata (R : Type) (root : node caccount -> R) (t1 t2 : atrie) :
+    wfc aleaf t1 -> wfc aleaf t2 ->
+    (forall k, vkey k -> option_map cview_leaf (trie_get aleaf t1 k) = option_map cview_leaf (trie_get aleaf t2 k)) ->
+    root (cview t1) = root (cview t2).
+  Proof. intros H1 H2 H. f_equal. exact (canonical_projection aleaf caccount cview_leaf t1 t2 H1 H2 H). Qed.
+
+  (* the explicit storage root: for an account that is not empty at Stage, the committed leaf names a storage trie
+     whenever a storage slot of the account was written in this block under its current barrier — even if every written
+     value is empty, in which case the named trie may be the empty one (Example explicit_empty_storage_root) — and
+     otherwise exactly when the account record named one already; a named storage trie is well formed and holds exactly
+     the account's storage as the state reads it *)
+  Theorem staged_storage_root base codes ops major minor a :
+    base_ok hk base -> Forall state_op ops ->
+    let s := run_state hk hs ops (open base codes) in
+    let s' := commit_reopen hk hs trimkey s major minor in
+    let x := get_account hk hs s a in
+    let y := get_account hk hs s' a in
+    is_empty x = false ->
+    (stor_written s a -> exists st, a_sroot y = Some st) /\
+    (~ stor_written s a -> a_sroot y = a_sroot x) /\
+    (forall st, a_sroot y = Some st ->
+       wfc sleaf st /\ forall k, raw_of (trie_get sleaf st (hs k)) = get_raw_storage hk hs s a k).
+  Proof.
+    intros Hb Hops.
+    destruct (reachable_invs hk hs base codes ops Hops) as [A [B [C D]]].
+    apply (staged_sroot_lemma hk hs trimkey hk_valid hk_inj hs_valid hs_inj _ major minor A B C).
+    rewrite D. exact Hb.
+  Qed.
+
+  (* state_root_depends_only_on_content: two histories of state operations on the same legal base holding secure keys
+     only (the parent block's state; Nil is one, and Stage re-establishes both premises: stage_reestablishes_base,
+     stage_keeps_secure_base) that end with the same logical content — for every address the same balance, energy, block
+     time, master and code hash and the same raw value in every storage slot — and whose committed leaves name a storage
+     trie for the same addresses (by staged_storage_root that is: storage written in the block under the current barrier,
+     or a root carried over; it is part of the content because the code makes the root explicit, possibly empty, on a
+     write) commit to the same consensus view of the accounts trie, hence to the same state root for any root function:
+     whatever the order of the operations, whatever was overwritten, reverted, or deleted and re-created on the way, and
+     whatever the two versions.  StorageIDs and versions do depend on order and version: they are metadata. *)
+  Theorem state_root_depends_only_on_content (R : Type) (root : node caccount -> R) base codes ops1 ops2 ma1 mi1 ma2 mi2 :
+    base_ok hk base -> secure_base hk hs base -> Forall state_op ops1 -> Forall state_op ops2 ->
+    let s1 := run_state hk hs ops1 (open base codes) in
+    let s2 := run_state hk hs ops2 (open base codes) in
+    (forall a, same_fields (get_account hk hs s1 a) (get_account hk hs s2 a) /\
+               (forall k, get_raw_storage hk hs s1 a k = get_raw_storage hk hs s2 a k) /\
+               (a_sroot (get_account hk hs (commit_reopen hk hs trimkey s1 ma1 mi1) a) = None <->
+                a_sroot (get_account hk hs (commit_reopen hk hs trimkey s2 ma2 mi2) a) = None)) ->
+    root (cview (stage hk hs trimkey s1 ma1 mi1)) = root (cview (stage hk hs trimkey s2 ma2 mi2)).
+  Proof.
+    intros Hb Hsec H1 H2 s1 s2 Hc. f_equal.
+    exact (state_root_content_lemma hk hs trimkey hk_valid hk_inj hs_valid hs_inj base codes ops1 ops2 ma1 mi1 ma2 mi2 Hb Hsec H1 H2 Hc).
+  Qed.
+
+  (* the staged trie holds secure keys only and its storage tries no empty value: `secure_base` is inductive over chains *)
+  Theorem stage_keeps_secure_base base codes ops major minor :
+    base_ok hk base -> secure_base hk hs base -> Forall state_op ops ->
+    secure_base hk hs (stage hk hs trimkey (run_state hk hs ops (open base codes)) major minor).
+  Proof.
+    intros Hb Hsec Hops.
+    destruct (reachable_invs hk hs base codes ops Hops) as [A [B [C D]]].
+    apply (stage_secure hk hs trimkey hk_valid hk_inj hs_valid _ major minor A B C); rewrite D; auto.
+  Qed.
+
   (* the committed trie is a legal base again, so the two theorems above apply along whole chains of blocks *)
   Theorem stage_reestablishes_base base codes ops major minor :
     base_ok hk base -> Forall state_op ops ->
@@ -205,6 +291,41 @@ Example ops_same_tree :
     Short [1; 2] (Full [Nil; Nil; Nil; Nil; Short [16] (Value 8); Nil; Nil; Nil; Nil; Nil; Nil; Nil; Nil; Nil; Nil; Nil; Value 9]).
 Proof. split; vm_compute; reflexivity. Qed.
 
+(* concrete keys and histories for the state examples (State/ExamplesContent.v): unary secure keys, the same two accounts and
+   storage slots written in two orders on the empty state; the premises of state_root_depends_only_on_content hold for them *)
+Example state_content_premises :
+  (forall a, vkey (xhk a)) /\ (forall a b, xhk a = xhk b -> a = b) /\ (forall k, vkey (xhs k)) /\ (forall a b, xhs a = xhs b -> a = b) /\
+  base_ok xhk Nil /\ secure_base xhk xhs Nil /\ Forall state_op xops1 /\ Forall state_op xops2 /\
+  forall a,
+    same_fields (get_account xhk xhs xst1 a) (get_account xhk xhs xst2 a) /\
+    (forall k, get_raw_storage xhk xhs xst1 a k = get_raw_storage xhk xhs xst2 a k) /\
+    (a_sroot (get_account xhk xhs (commit_reopen xhk xhs xtrim xst1 1%N 0%N) a) = None <->
+     a_sroot (get_account xhk xhs (commit_reopen xhk xhs xtrim xst2 1%N 0%N) a) = None).
+Proof.
+  split; [exact xhk_valid|]. split; [exact xhk_inj|]. split; [exact xhs_valid|]. split; [exact xhs_inj|].
+  split; [apply base_ok_nil|]. split; [apply secure_base_nil|].
+  split; [repeat constructor|]. split; [repeat constructor|].
+  exact state_content_premise.
+Qed.
+
+(* the same accounts and storage written in two orders: the staged tries differ (StorageID carries the creation count)
+   and their consensus views are equal *)
+Example stage_order_changes_metadata_only :
+  stage xhk xhs xtrim xst1 1%N 0%N <> stage xhk xhs xtrim xst2 1%N 0%N /\
+  cview (stage xhk xhs xtrim xst1 1%N 0%N) = cview (stage xhk xhs xtrim xst2 1%N 0%N).
+Proof. split; [vm_compute; discriminate|vm_compute; reflexivity]. Qed.
+
+(* a storage write of the empty value to a fresh account: the committed leaf names the empty storage trie explicitly *)
+Example explicit_empty_storage_root :
+  let s := run_state xhk xhs [OBal 1%N 5%N; ORaw 1%N 2%N []] (open Nil []) in
+  a_sroot (get_account xhk xhs (commit_reopen xhk xhs xtrim s 1%N 0%N) 1%N) = Some Nil /\
+  a_sroot (get_account xhk xhs s 1%N) = None /\
+  stor_written s 1%N.
+Proof.
+  split; [vm_compute; reflexivity|]. split; [vm_compute; reflexivity|].
+  exists 2%N, []. vm_compute. reflexivity.
+Qed.
+
 Print Assumptions trie_wf_preserved.
 Print Assumptions trie_refines_map.
 Print Assumptions trie_canonical.
@@ -219,3 +340,10 @@ Print Assumptions stage_wf_preserved.
 Print Assumptions stage_root_canonical.
 Print Assumptions reopen_reads_back.
 Print Assumptions stage_reestablishes_base.
+Print Assumptions root_ignores_metadata.
+Print Assumptions projection_keeps_wf.
+Print Assumptions projection_commutes_with_get.
+Print Assumptions stage_root_ignores_metadata.
+Print Assumptions staged_storage_root.
+Print Assumptions state_root_depends_only_on_content.
+Print Assumptions stage_keeps_secure_base.
